@@ -10,6 +10,7 @@ import (
 	"github.com/glyphlang/glyph/pkg/ast"
 	"github.com/glyphlang/glyph/pkg/database"
 	"github.com/glyphlang/glyph/pkg/interpreter"
+	"github.com/glyphlang/glyph/pkg/mongodb"
 	"github.com/glyphlang/glyph/pkg/parser"
 	"github.com/glyphlang/glyph/pkg/redis"
 )
@@ -372,4 +373,90 @@ func VerifC08_RedisIncrVsDecr() {
 	n := s.get("/hits", "/hits", nil)
 	zzverif.Assert(same(n, interface{}("1")), "redis: concurrent incr and decr did not cancel out")
 	zzverif.Reach("redis-incr-decr")
+}
+
+// ---------------------------------------------------------------------------
+// in-memory MongoDB (the provider `glyph run` injects by default): what one
+// request read from a collection is its own; another request's update neither
+// races with it nor shows through it
+
+const srcMongo = `
+@ GET /list {
+  % mongo: MongoDB
+  $ col = mongo.Collection("c")
+  > col.Find({})
+}
+
+@ GET /one {
+  % mongo: MongoDB
+  $ col = mongo.Collection("c")
+  > col.FindOne({k: 1})
+}
+
+@ GET /bump {
+  % mongo: MongoDB
+  $ col = mongo.Collection("c")
+  > col.UpdateOne({k: 1}, {n: 2})
+}
+
+@ GET /bump3 {
+  % mongo: MongoDB
+  $ col = mongo.Collection("c")
+  > col.UpdateMany({}, {n: 3})
+}
+`
+
+func newMongoServer() *server {
+	s := newServer(srcMongo)
+	h := mongodb.NewMockHandler()
+	h.Collection("c").InsertOne(map[string]interface{}{"k": int64(1), "n": int64(1)})
+	s.in.SetMongoDBHandler(h)
+	return s
+}
+
+// field n of the document a /list or /one reply carries (-1: not such a reply)
+func mongoN(r reply) int64 {
+	if !r.ok {
+		return -1
+	}
+	var doc map[string]interface{}
+	switch b := r.body.(type) {
+	case []map[string]interface{}:
+		if len(b) != 1 {
+			return -1
+		}
+		doc = b[0]
+	case map[string]interface{}:
+		doc = b
+	default:
+		return -1
+	}
+	n, ok := doc["n"].(int64)
+	if !ok {
+		return -1
+	}
+	return n
+}
+
+func VerifC08_MongoFindVsUpdate() {
+	s := newMongoServer()
+	read := "/list"
+	if zzverif.Choice("reader uses FindOne", 2) == 1 {
+		read = "/one"
+	}
+	a, b := both(
+		func() reply { return s.get(read, read, nil) },
+		func() reply { return s.get("/bump", "/bump", nil) },
+	)
+	zzverif.Assert(a.ok && b.ok, "mongo: concurrent find/update failed")
+	got := mongoN(a)
+	zzverif.Assert(got == 1 || got == 2, "mongo: a reader saw a value no order of the two requests gives")
+	zzverif.Assert(b.body == interface{}(int64(1)), "mongo: update did not report one modified document")
+	zzverif.Assert(mongoN(s.get(read, read, nil)) == 2, "mongo: the update was lost")
+	// a reply is the request's own: a later request's update does not show through it
+	c := s.get("/bump3", "/bump3", nil)
+	zzverif.Assert(same(c, interface{}(int64(1))), "mongo: UpdateMany({}) did not report one modified document")
+	zzverif.Assert(mongoN(a) == got, "mongo: a reply changed after another request updated the collection")
+	zzverif.Assert(mongoN(s.get(read, read, nil)) == 3, "mongo: the second update was lost")
+	zzverif.Reach("mongo-find-update")
 }
